@@ -61,6 +61,12 @@ CLAIMED = {
         "Assumes deterministic dict order/float arithmetic and immutable resource files; aliasing through function arguments is not tracked beyond the listed idioms.",
         "DESIGN.md §5 C12",
     ),
+    "C13": (
+        "call-graph reachability from the three entry points; raise-class inventory; exception-flow analysis (partial-operation table driven by an intra-procedural kind analysis of document values, handlers subtracting by the class hierarchy, summaries to a fixpoint, strict-mode branches pruned); recursion analysis (SCCs of the resolved call graph minus edges discharged by a dominating visited-set guard or a structural-descent witness); amplification scan of loop bounds and allocation sizes",
+        "Decides, over everything reachable from extract_text / extract_pages / extract_text_to_fp, which internal exception classes may escape (by origin construct), which call cycles and reference-following loops lack a guard, and which loop bounds/allocation sizes are bare document integers. Today's tree has 87 such origins, each a genuine defect recorded in known_findings.jsonl (clusters confirmed with failing inputs); any new origin - a removed try, a narrowed except, int_value(x) replaced by x, a removed isinstance, a removed visited set, a new walker over Kids/Next/Prev - is a violation. A numeric work bound is not decided, and completeness is relative to the partial-operation and document-value tables.",
+        "Trusts the tables in sa/doctaint.py and sa/rules/c13_ops.py (which accessors yield document values, which operations are partial), parameter annotations Dict/Mapping/PDFStream as established types, and the call-graph resolution. The exception family is PSException subclasses plus AssertionError (the repository's fuzz contract).",
+        "DESIGN.md §5 C13",
+    ),
     "C14": (
         "finite abstraction of the scanner automaton analysed completely (path enumeration of loop-free scanners with symbolic index arithmetic; zero-advance subgraph acyclicity), exception-flow analysis over the resolved call graph with a verified safe-table, buffer-read classification, write-set checks",
         "The tokenizer's twelve scanner methods are abstracted to a finite automaton whose every transition is classified by the advance of the returned index; acyclicity of the zero-advance subgraph plus the driver-loop obligations give termination and non-decreasing positions for every byte string; the exception-flow analysis shows only PSEOF escapes; read classification shows tokens cannot depend on the buffer size. This is a complete analysis of the abstraction, not a sample of inputs.",
